@@ -203,6 +203,11 @@ pub struct SessionHistory {
     /// bit i set: session i is built with Session::default() instead of Session::new()
     #[serde(default)]
     pub default_ctor: u8,
+    /// language in force for op i (0 en, 1 tr), cyclic; empty = every op under en. Histories that switch the language
+    /// consist of word-free texts (numbers, money, names), which mean the same in every configured language, so the
+    /// one-text reference is evaluated under en
+    #[serde(default)]
+    pub langs: Vec<u8>,
 }
 
 pub struct Sessions;
@@ -218,7 +223,7 @@ impl Prop for Sessions {
     fn check(&self, w: &mut Worker, c: &SessionHistory) -> Verdict {
         let cfg = Cfg::default();
         let n = c.sessions.max(1) as usize;
-        let rendered = format!("{} sessions; {}", n, c.ops.iter().map(|(s, t)| format!("s{}.set_text({:?}); execute", *s as usize % n, t)).collect::<Vec<_>>().join("; "));
+        let rendered = format!("{} sessions; {}", n, c.ops.iter().enumerate().map(|(i, (s, t))| format!("s{}{}.set_text({:?}); execute", *s as usize % n, if !c.langs.is_empty() && c.langs[i % c.langs.len()] % 2 == 1 { ".set_language(tr)" } else if !c.langs.is_empty() { ".set_language(en)" } else { "" }, t)).collect::<Vec<_>>().join("; "));
         let today0 = chrono::Utc::now().date_naive();
         let calc = build_calc(&cfg);
         let reference = build_calc(&cfg);
@@ -230,11 +235,12 @@ impl Prop for Sessions {
         let mut acc = Acc::new();
         let mut differing_counts = false;
         let mut cross_text_variable = false;
-        for (si, text) in &c.ops {
+        for (op_index, (si, text)) in c.ops.iter().enumerate() {
             let s = *si as usize % n;
             let lines = crate::c01::split_lines(text);
             w.count_eval(2);
-            let out = match eval_session(&calc, &mut sessions[s], "en", text) {
+            let lang = if c.langs.is_empty() || c.langs[op_index % c.langs.len()] % 2 == 0 { "en" } else { "tr" };
+            let out = match eval_session(&calc, &mut sessions[s], lang, text) {
                 Ok(o) => o,
                 Err(p) => {
                     acc.fail(format!("panic at {}: {}", p.site, p.message));
@@ -337,7 +343,7 @@ impl Prop for Sessions {
                 }
             }
         }
-        acc.finish(rendered).nt(differing_counts && cross_text_variable).class_if(differing_counts, "texts-of-different-line-counts").class_if(cross_text_variable, "variable-from-an-earlier-text-used").class_if(n >= 2, "two-or-more-sessions").class_if(c.default_ctor & ((1u8 << n.min(7)) - 1) != 0, "session-built-with-Session::default()").class_if(c.ops.len() >= 6, "six-or-more-texts").class_if(dropped_failed > 0, "failed-lines-dropped-from-the-reference")
+        acc.finish(rendered).nt(differing_counts && cross_text_variable).class_if(differing_counts, "texts-of-different-line-counts").class_if(cross_text_variable, "variable-from-an-earlier-text-used").class_if(n >= 2, "two-or-more-sessions").class_if(c.default_ctor & ((1u8 << n.min(7)) - 1) != 0, "session-built-with-Session::default()").class_if(c.ops.len() >= 6, "six-or-more-texts").class_if(dropped_failed > 0, "failed-lines-dropped-from-the-reference").class_if(c.langs.iter().any(|l| l % 2 == 1), "session-switched-between-languages")
     }
 }
 
@@ -365,10 +371,15 @@ pub fn session_text() -> impl Strategy<Value = String> {
 }
 
 pub fn session_history_strategy(max: usize) -> impl Strategy<Value = SessionHistory> {
-    (session_history_strategy_new(max), prop_oneof![2 => Just(0u8), 1 => 0u8..8]).prop_map(|(mut h, d)| {
+    let plain = (session_history_strategy_new(max), prop_oneof![2 => Just(0u8), 1 => 0u8..8]).prop_map(|(mut h, d)| {
         h.default_ctor = d;
         h
-    })
+    });
+    // sessions whose language is switched between the texts: word-free lines only (they mean the same in en and tr)
+    let word_free = prop::sample::select(vec!["x = 5", "x = 7", "x = x + 1", "x * 2", "x", "rate = 10 usd", "rate = 25 eur", "rate * 2", "rate + 5 usd", "rate", "total cost = 3", "total cost = total cost * x", "total cost * x", "x + total cost", "12% * x", "", "x = 1 +"]).prop_map(|s| s.to_string());
+    let text = prop::collection::vec(word_free, 1..=4).prop_map(|ls| ls.join("\n"));
+    let switching = (1u8..=2, prop::collection::vec((0u8..2, text), 2..max), prop::collection::vec(0u8..2, 2..6)).prop_map(|(sessions, ops, langs)| SessionHistory { sessions, ops, extra_execute: false, default_ctor: 0, langs });
+    prop_oneof![4 => plain.boxed(), 1 => switching.boxed()]
 }
 
 fn session_history_strategy_new(max: usize) -> impl Strategy<Value = SessionHistory> {
@@ -389,25 +400,25 @@ fn session_history_strategy_new(max: usize) -> impl Strategy<Value = SessionHist
             last[si] = Some(text.clone());
             out.push((s, text));
         }
-        SessionHistory { sessions, ops: out, extra_execute, default_ctor: 0 }
+        SessionHistory { sessions, ops: out, extra_execute, default_ctor: 0, langs: vec![] }
     })
 }
 
 pub fn regressions() -> Vec<SessionHistory> {
     vec![
         // F40: a 3-line text, then a 1-line text
-        SessionHistory { sessions: 1, ops: vec![(0, "x = 5\nx + 1\nx * 2".into()), (0, "x".into())], extra_execute: false, default_ctor: 0 },
-        SessionHistory { sessions: 1, ops: vec![(0, "x = 5".into()), (0, "x + 1\nx * 2\nx = x + 1".into()), (0, "x\n\nx".into())], extra_execute: true, default_ctor: 0 },
+        SessionHistory { sessions: 1, ops: vec![(0, "x = 5\nx + 1\nx * 2".into()), (0, "x".into())], extra_execute: false, default_ctor: 0, langs: vec![] },
+        SessionHistory { sessions: 1, ops: vec![(0, "x = 5".into()), (0, "x + 1\nx * 2\nx = x + 1".into()), (0, "x\n\nx".into())], extra_execute: true, default_ctor: 0, langs: vec![] },
         // a text whose first line is a lone CR (a failing line that cannot be re-joined): the later texts still see x
-        SessionHistory { sessions: 1, ops: vec![(0, "\r\r\nx = 5".into()), (0, "10% of x".into())], extra_execute: false, default_ctor: 0 },
-        SessionHistory { sessions: 1, ops: vec![(0, "\r\r\nx = 2 * 3 usd".into()), (0, "x = x + 1 day".into())], extra_execute: false, default_ctor: 0 },
+        SessionHistory { sessions: 1, ops: vec![(0, "\r\r\nx = 5".into()), (0, "10% of x".into())], extra_execute: false, default_ctor: 0, langs: vec![] },
+        SessionHistory { sessions: 1, ops: vec![(0, "\r\r\nx = 2 * 3 usd".into()), (0, "x = x + 1 day".into())], extra_execute: false, default_ctor: 0, langs: vec![] },
         // two sessions do not share variables
-        SessionHistory { sessions: 2, ops: vec![(0, "x = 5".into()), (1, "x + 1".into()), (1, "x = 7".into()), (0, "x".into()), (1, "x".into())], extra_execute: false, default_ctor: 0 },
+        SessionHistory { sessions: 2, ops: vec![(0, "x = 5".into()), (1, "x + 1".into()), (1, "x = 7".into()), (0, "x".into()), (1, "x".into())], extra_execute: false, default_ctor: 0, langs: vec![] },
     ]
 }
 
 pub fn run(ctx: &Ctx) {
-    ctx.rule("(a) calculator histories: a freshly built long-lived calculator evaluates 1-30 texts drawn from all other generators plus token soup (failing and rule-heavy lines included), then a probe text; in half of the histories the calculator is switched to other configurations through the public setters in between and back before the probe; (a') related histories: the texts before the probe are variants of the probe itself - same sentence, units, currencies, zones and names, operands replaced by 0, 1, 2, 0.5, 12, 31, 60, 100, 1000, 1e9, some of them cut short by one to three tokens - mixed with unrelated texts; oracle: status, every slot (None / error text / output / AST value) and the highlight tokens of the probe equal those on a fresh calculator of the same configuration that evaluates only the probe; (b) session histories over 1-3 sessions (built with Session::new() or Session::default()) sharing one calculator: set_text(text of 1-5 lines incl. empty lines, assignments, CRLF; about one op in six sets the session's previous text again, unchanged or with a trailing blank / line separator) + execute_session; oracle: status true, slot count = line count of the text just set, slots = the last |T| slots of a one-shot execute of the concatenation of all texts that session has executed (fresh calculator, fresh session), and also of that concatenation WITHOUT the lines that failed to evaluate (a failed line leaves no trace); non-trivial = (a) history >= 3 texts and the probe yields a value, (b) texts of different line counts on one session and a variable from an earlier text used in a later one");
+    ctx.rule("(a) calculator histories: a freshly built long-lived calculator evaluates 1-30 texts drawn from all other generators plus token soup (failing and rule-heavy lines included), then a probe text; in half of the histories the calculator is switched to other configurations through the public setters in between and back before the probe; (a') related histories: the texts before the probe are variants of the probe itself - same sentence, units, currencies, zones and names, operands replaced by 0, 1, 2, 0.5, 12, 31, 60, 100, 1000, 1e9, some of them cut short by one to three tokens - mixed with unrelated texts; oracle: status, every slot (None / error text / output / AST value) and the highlight tokens of the probe equal those on a fresh calculator of the same configuration that evaluates only the probe; (b) session histories over 1-3 sessions (built with Session::new() or Session::default(); in a fifth of the histories the session's language is switched between en and tr from text to text, the texts then being word-free) sharing one calculator: set_text(text of 1-5 lines incl. empty lines, assignments, CRLF; about one op in six sets the session's previous text again, unchanged or with a trailing blank / line separator) + execute_session; oracle: status true, slot count = line count of the text just set, slots = the last |T| slots of a one-shot execute of the concatenation of all texts that session has executed (fresh calculator, fresh session), and also of that concatenation WITHOUT the lines that failed to evaluate (a failed line leaves no trace); non-trivial = (a) history >= 3 texts and the probe yields a value, (b) texts of different line counts on one session and a variable from an earlier text used in a later one");
     ctx.assume("lines mentioning now are not generated; execute_session without a preceding set_text is exercised only at the end of a session's life (no assertion beyond not panicking)");
     ctx.run_table(&Sessions, "regressions", regressions(), false);
     let (h, s) = match ctx.tier {
